@@ -1,6 +1,7 @@
 """C16: generating-function algebra agrees with exact polynomial arithmetic.
 Tie B: programs over the Python operators (+, -, *, / with GF and Fraction operands, dx) with
-Fraction coefficient lists; gf[i] and gf(x) compared as exact rationals with Model/GF.v.
+Fraction coefficient lists; gf[i] and gf(x), and gf.dx(k)[i] asked several times of the one top object
+(case field 'dxq' = the orders, in order), compared as exact rationals with Model/GF.v.
 D: an independent exact polynomial reference (lists of Fraction) restating the property."""
 import itertools
 from fractions import Fraction
@@ -263,6 +264,11 @@ def case_cost(case):
         nl = leaves(s, {})
         memo = {}
         cc = sum(coeff_cost(s, i, memo) for i in case['idx'])
+        # the further queries g.dx(k)[i] on the top object: the coefficient recursion of the program ['dx', e, k]
+        dxq = case.get('dxq') or []
+        for k in sorted(set(dxq)):
+            sk = sh_deriv(s, k)
+            cc += dxq.count(k) * sum(coeff_cost(sk, i, memo) for i in case['idx'])
     except (RecursionError, TooBig):
         return 10 ** 9, 10 ** 9
     ml = max_len(case['expr'])
@@ -365,6 +371,11 @@ def queries(rnd, e, top_dx=None):
     return idx, pts
 
 
+# orders of the further queries g.dx(k)[i] put to the top object after gf[i] and gf(x), in this order
+DXQ_PLANS = [[1, 2, 1], [1, 2, 1], [2, 1, 2], [1, 0, 1], [3, 1], [2, 2]]
+DXQ_P = 0.35
+
+
 class H(Harness):
     ID = 'C16'
     ANCHOR_FILES = ['epydemic/gf/gf.py', 'epydemic/gf/function_gf.py', 'epydemic/gf/discrete_gf.py', 'epydemic/gf/sum_gf.py', 'epydemic/gf/product_gf.py', 'epydemic/gf/interface.py']
@@ -379,8 +390,12 @@ class H(Harness):
             'length 299-340), the operators + - * with GF operands, + - * / with Fraction operands (including / 0), dx(k) and dx() '
             'anywhere in the tree, k in 0..6; every operator shape of depth <= 2 over 6 unary and 3 binary operators (thorough: also '
             'depth <= 3 over 2 unary and 2 binary operators and depth <= 2 with two leaf fillings), random programs to depth 6 '
-            '(thorough 7); asked: gf[i] for i in {0, 1, deg, deg+1, 3 random up to deg+2} and gf(x) at 2 of 8 rational points; a case is '
-            'non-trivial when the program contains a product or a derivative; distinct by program')
+            '(thorough 7); coefficient FUNCTIONS whose last non-zero coefficient is at index 298, 299, 300 (= the last term of the default '
+            '301-term loop), bare, differentiated and scaled, at x = 1 and -1; one object differentiated to two orders (dx(k) of '
+            'x + x*y, y*x - x, x*(x + y) with x one shared object); asked: gf[i] for i in {0, 1, deg, deg+1, 3 random up to deg+2} and '
+            'gf(x) at 2 of 8 rational points, and on 35% of the random cases and a fixed block further gf.dx(k)[i] on the SAME top '
+            'object for a sequence of orders such as 1, 2, 1; a case is non-trivial when the program contains a product or a '
+            'derivative; distinct by program')
     TRUSTED = ['Coq 8.16.1 kernel incl. vm_compute', 'harness/c16.py and vlib (translation of a program to the Python operators and to the Coq expr type)',
                'CPython fractions.Fraction arithmetic is exact rational arithmetic', 'functools.lru_cache returns what the wrapped method would return']
     ASSUMPTIONS = ['coefficients, operands and evaluation points are exact rationals (fractions.Fraction); float inputs are not covered',
@@ -409,6 +424,11 @@ class H(Harness):
                 if not self._accept(case):
                     self.rejected += 1
                     continue
+            # several dx(k) on the ONE top object (the memo of dx is keyed by instance AND order), when affordable
+            if rnd.random() < DXQ_P:
+                more = dict(case, dxq=rnd.choice(DXQ_PLANS))
+                if self._accept(more):
+                    case = more
             out.append(case)
         return out
 
@@ -435,11 +455,38 @@ class H(Harness):
             cs[-1] = '3'
             for e in (['C', cs], ['dx1', ['C', cs]], ['*n', ['+', ['C', cs], ['C', ['1', '1']]], '1/2']):
                 out.append({'expr': e, 'idx': [0, n - 2, n - 1, n], 'pts': [x]})
+        # the same for coefficient FUNCTIONS, whose loop is the default one (terms 0..300): the last non-zero coefficient
+        # at index 298, 299 and 300 = the last term summed (ASSUMPTIONS: they vanish above index 300)
+        for n in (299, 300, 301):
+            cs = [fs(Fraction((5 * i) % 7 - 3, 1 + i % 2)) for i in range(n)]
+            cs[-1] = '3'
+            for x in ('1', '-1'):
+                for e in (['F', cs], ['dx1', ['F', cs]], ['*n', ['F', cs], '1/2']):
+                    out.append({'expr': e, 'idx': [0, n - 2, n - 1, n], 'pts': [x]})
+        one = ['0'] * 300 + ['1']
+        out.append({'expr': ['F', one], 'idx': [0, 299, 300, 301], 'pts': ['1', '2']})
+        out.append({'expr': ['+', ['F', one], ['C', ['1', '1']]], 'idx': [0, 1, 300], 'pts': ['-1']})
         # a generating function multiplied by ITSELF (one object): squares of leaves, of sums, of derivatives, cubes
         for leaf in (['C', ['1', '2']], ['C', ['1/2', '0', '-3', '2']], ['F', ['0', '1', '1/3']], ['C', ['2/3', '-1/2', '1', '5', '7']]):
             for inner in (leaf, ['+', leaf, ['C', ['1', '1']]], ['dx1', leaf], ['*n', leaf, '3']):
                 for e in (['*', inner, inner], ['*', ['*', inner, inner], inner], ['dx1', ['*', inner, inner]], ['-', ['*', inner, inner], inner]):
                     out.append({'expr': e, 'idx': list(range(0, 9)), 'pts': ['1', '-1/2'], 'share': True})
+        # ONE object differentiated to two different orders: Sum(x, Product(x, y)).dx(2) asks x.dx(2) and x.dx(); and the top
+        # object itself asked dx(1), dx(2), dx(1) again (execute, 'dxq')
+        ys = (['C', ['1', '1']], ['F', ['2', '0', '-1/3', '1']])
+        xs = (['C', ['1', '2', '3', '4']], ['F', ['1/2', '0', '-3', '2', '5']], ['+', ['C', ['0', '1', '1', '1/7']], ['F', ['1', '0', '0', '2']]],
+              ['*', ['C', ['1', '1']], ['C', ['1', '-2', '1/3']]], ['*n', ['C', ['3', '1/4', '0', '1', '-2/5']], '-3/2'])
+        for x in xs:
+            for y in ys:
+                for k in (2, 3):
+                    for e in (['dx', ['+', x, ['*', x, y]], k], ['dx', ['-', ['*', y, x], x], k], ['dx', ['*', x, ['+', x, y]], k]):
+                        out.append({'expr': e, 'idx': list(range(0, 6)), 'pts': ['1', '-1/2'], 'share': True})
+                for e in (['+', x, ['*', x, y]], ['*', x, y]):
+                    for plan in ([1, 2, 1], [2, 0, 3, 2]):
+                        out.append({'expr': e, 'idx': list(range(0, 6)), 'pts': ['1', '-1/2'], 'share': True, 'dxq': plan})
+            for e in (['*', x, x], x):
+                for plan in ([1, 2, 1], [2, 0, 3, 2]):
+                    out.append({'expr': e, 'idx': list(range(0, 6)), 'pts': ['1', '-1/2'], 'share': True, 'dxq': plan})
         out = [c for c in out if self._accept(c) or max_len(c['expr']) > 100]
         return out
 
@@ -449,14 +496,17 @@ class H(Harness):
             g = build_py(case['expr'], {} if case.get('share') else None)
             coeffs = [g[i] for i in case['idx']]
             values = [g(fr(x)) for x in case['pts']]
+            # further queries on the same top object, in the order given: g.dx(k)[i]
+            dxq = [[g.dx(k)[i] for i in case['idx']] for k in case.get('dxq') or []]
         except ZeroDivisionError:
-            return {'zerodiv': True, 'raised': None, 'coeffs': [], 'values': []}
+            return {'zerodiv': True, 'raised': None, 'coeffs': [], 'values': [], 'dxq': []}
         except (RecursionError, ArithmeticError, LookupError, TypeError, ValueError, AttributeError, NotImplementedError) as e:
-            return {'zerodiv': False, 'raised': type(e).__name__, 'coeffs': [], 'values': []}
-        bad = [repr(v) for v in coeffs + values if not isinstance(v, (int, Fraction))]
+            return {'zerodiv': False, 'raised': type(e).__name__, 'coeffs': [], 'values': [], 'dxq': []}
+        bad = [repr(v) for v in coeffs + values + [w for ws in dxq for w in ws] if not isinstance(v, (int, Fraction))]
         if bad:
-            return {'zerodiv': False, 'raised': 'non-exact value from exact inputs: ' + bad[0], 'coeffs': [], 'values': []}
-        return {'zerodiv': False, 'raised': None, 'coeffs': [fs(v) for v in coeffs], 'values': [fs(v) for v in values]}
+            return {'zerodiv': False, 'raised': 'non-exact value from exact inputs: ' + bad[0], 'coeffs': [], 'values': [], 'dxq': []}
+        return {'zerodiv': False, 'raised': None, 'coeffs': [fs(v) for v in coeffs], 'values': [fs(v) for v in values],
+                'dxq': [[fs(v) for v in ws] for ws in dxq]}
 
     def direct(self, case, obs):
         v = []
@@ -476,6 +526,14 @@ class H(Harness):
             if fr(got) != want:
                 v.append({'signature': 'coefficient', 'detail': 'gf[%d] = %s, polynomial coefficient %s' % (i, got, fs(want))})
                 break
+        for n, (k, gots) in enumerate(zip(case.get('dxq') or [], obs.get('dxq') or [])):
+            pk = p_deriv(p, k)
+            bad = [(i, got) for i, got in zip(case['idx'], gots) if fr(got) != (pk[i] if i < len(pk) else Fraction(0))]
+            if bad:
+                i, got = bad[0]
+                v.append({'signature': 'dx-coefficient', 'detail': 'query %d on the top object: gf.dx(%d)[%d] = %s, coefficient of the derivative %s (orders asked: %s)'
+                          % (n + 1, k, i, got, fs(pk[i] if i < len(pk) else Fraction(0)), case['dxq'])})
+                break
         if func_max_len(e) <= 301:  # beyond it a coefficient function is truncated and the property does not apply
             for x, got in zip(case['pts'], obs['values']):
                 want = p_eval(p, fr(x))
@@ -485,9 +543,10 @@ class H(Harness):
         return v
 
     def to_coq(self, case, obs):
-        return ('{| c_expr := %s; c_idx := %s; c_pts := %s; o_zerodiv := %s; o_coeffs := %s; o_values := %s |}' % (
+        dxq = [L.pair(L.nat(k), L.lst([L.q(fr(c)) for c in ws])) for k, ws in zip(case.get('dxq') or [], obs.get('dxq') or [])]
+        return ('{| c_expr := %s; c_idx := %s; c_pts := %s; o_zerodiv := %s; o_coeffs := %s; o_values := %s; o_dxq := %s |}' % (
             expr_coq(case['expr']), L.lst(case['idx'], L.nat), L.lst([L.q(fr(x)) for x in case['pts']]),
-            L.b(obs['zerodiv']), L.lst([L.q(fr(c)) for c in obs['coeffs']]), L.lst([L.q(fr(c)) for c in obs['values']])))
+            L.b(obs['zerodiv']), L.lst([L.q(fr(c)) for c in obs['coeffs']]), L.lst([L.q(fr(c)) for c in obs['values']]), L.lst(dxq)))
 
     def nontrivial(self, case, obs):
         s = repr(case['expr'])
